@@ -91,7 +91,10 @@ type JSThread struct {
 type JSField struct {
 	Name   string   `json:"name"`
 	Ctx    bool     `json:"ctx,omitempty"`
-	XPath  string   `json:"xpath,omitempty"` // "", ".", "..", "../.."
+	XPath  string   `json:"xpath,omitempty"` // "", ".", "..", "../..", "c0" (the record's first column; Wrap only)
+	// Wrap: the call sits, without an xpath of its own, inside an object that carries the anchor xpath:
+	// {"xpath": XPath, "object": {"v": <call>}} - the same call text can then be evaluated on several nodes of one record.
+	Wrap bool `json:"wrap,omitempty"`
 	Script string   `json:"script"`
 	Probes []string `json:"probes,omitempty"`
 	Args   []JSArg  `json:"args,omitempty"`
@@ -282,7 +285,35 @@ func DrawJSFields(t *rapid.T, label string) []JSField {
 		}
 		f.Script, f.Probes = DrawJSScript(t, l+"s", jsNamesOf(f.Args), f.Ctx)
 		f.Script = strings.TrimSpace(f.Script)
+		if rapid.IntRange(0, 4).Draw(t, l+"wrap") == 0 {
+			f.Wrap = true
+			f.XPath = rapid.SampledFrom([]string{"..", "c0", "c0", ".", "../.."}).Draw(t, l+"wrapAt")
+		}
 		fs = append(fs, f)
+	}
+	// the text of an earlier call once more, evaluated on another node of the same record
+	if rapid.Bool().Draw(t, label+"dup") {
+		src := fs[rapid.IntRange(0, len(fs)-1).Draw(t, label+"dupOf")]
+		d := src
+		d.Name = fmt.Sprintf("f%d", len(fs))
+		d.Wrap = true
+		var others []string
+		for _, a := range []string{"..", "c0", ".", "../.."} {
+			if a != src.XPath && !(a == "." && src.XPath == "") {
+				others = append(others, a)
+			}
+		}
+		d.XPath = rapid.SampledFrom(others).Draw(t, label+"dupAt")
+		if !src.Wrap && src.XPath != "" {
+			// the original carries its own xpath: give the copy's twin a bare form as well, so that two textually
+			// identical declarations exist
+			b := src
+			b.Name = fmt.Sprintf("f%d", len(fs)+1)
+			b.XPath = ""
+			fs = append(fs, d, b)
+		} else {
+			fs = append(fs, d)
+		}
 	}
 	return fs
 }
